@@ -135,6 +135,7 @@ def run_process_level(prop, tier, seed, R, scripts_override=None):
         n_shards = T["procs"] if scripts_override is None else 1
         total_runs = total_scripts = events = 0
         kinds = {}
+        drift = []
         for res in vlib.parallel(shard, range(n_shards)):
             if res is None:
                 continue
@@ -144,6 +145,9 @@ def run_process_level(prop, tier, seed, R, scripts_override=None):
             events += matched
             for r in results:
                 R.add_tlc(r)
+                for pr in r.prints:
+                    if '"DRIFT"' in pr:
+                        drift.append(pr[:200])
             for l in open(tp):
                 e = json.loads(l)
                 k = e.get("kind", e["ev"])
@@ -193,7 +197,10 @@ def run_process_level(prop, tier, seed, R, scripts_override=None):
                 R.coverage["transitions"] += g[1].generated
         R.coverage["traces_validated_against_impl"] += total_runs
         R.coverage.setdefault("process_level", {})
-        R.coverage["process_level"] = {"scripts": total_scripts, "engine_runs": total_runs, "events_matched": events, "event_kinds": kinds}
+        R.coverage["process_level"] = {"scripts": total_scripts, "engine_runs": total_runs, "events_matched": events, "event_kinds": kinds,
+                                       "info_line_shape_drift": drift[:3]}
+        if drift:
+            R.notes.append("SPEC-DRIFT (no verdict): %d go answers do not have the info-line shape of UciTrace.tla InfoGrammar, e.g. %s" % (len(drift), drift[0]))
         log("[%s] process level: %d scripts, %d engine runs, %d events matched, %d violations" % (prop, total_scripts, total_runs, events, len(R.violations)))
     finally:
         shutil.rmtree(work, ignore_errors=True)
